@@ -678,6 +678,9 @@ func vC33Scenarios(r *vRand, v uint64) []*vC33Prog {
 	if vTier() != "quick" || v >= varintBranchVersion || v == 4 {
 		dists = append(dists, 8190, 8191, 8192, 8193, 8194, 8195, 32764, 32765, 32766, 32767, 32768, 32769, 32770, 32771, 40000)
 	}
+	if vTier() == "thorough" {
+		dists = append(dists, 16382, 16383, 16384, 16385, 100000, 200000)
+	}
 	for _, d := range dists {
 		var fill []vC33Ins
 		for rest := d; rest > 0; {
